@@ -104,7 +104,7 @@ func GenOp(t *rapid.T, faults int) Op {
 	case "stat":
 		fault("stat")
 	case "wstat":
-		op.Perm = rapid.SampledFrom([]uint32{0600, 0755}).Draw(t, "perm")
+		op.Perm = rapid.SampledFrom([]uint32{0600, 0755, 0xFFFFFFFF}).Draw(t, "perm") // 0xFFFFFFFF: the all-"don't touch" record (wstat as a sync request)
 		fault("wstat")
 	case "clunk":
 		fault("clunk")
@@ -112,6 +112,9 @@ func GenOp(t *rapid.T, faults int) Op {
 		fault("remove")
 	}
 	op.CtxDone = rapid.IntRange(0, 11).Draw(t, "ctxdone") == 0
+	if op.Fault == "open" || op.Fault == "opendir" || op.Fault == "create" {
+		op.FaultPH = rapid.Bool().Draw(t, "faultph")
+	}
 	return op
 }
 
@@ -124,6 +127,24 @@ func genCase(faults int, maxOps int) func(t *rapid.T) SessCase {
 		}
 		minLen := rapid.IntRange(1, maxOps/2).Draw(t, "minlen")
 		c.Ops = append(c.Ops, rapid.SliceOfN(rapid.Custom(func(t *rapid.T) Op { return GenOp(t, faults) }), minLen, maxOps).Draw(t, "ops")...)
+		if rapid.IntRange(0, 5).Draw(t, "phblock") == 0 {
+			// an open (or create) that fails in the file system while handing back placeholder
+			// values, then the same fid is opened / read again
+			at := rapid.IntRange(1, len(c.Ops)).Draw(t, "phat")
+			k := rapid.SampledFrom(fidPool).Draw(t, "phfid")
+			path := rapid.SampledFrom([][]string{{"f"}, {"a", "x"}, {"a"}, {"e"}}).Draw(t, "phpath")
+			first := Op{Kind: "open", Fid: k, Mode: rapid.SampledFrom(modes).Draw(t, "phmode"), Fault: "open", FaultPH: true}
+			if path[len(path)-1] == "a" || path[len(path)-1] == "e" {
+				if rapid.Bool().Draw(t, "phcreate") {
+					first = Op{Kind: "create", Fid: k, Name: "n3", Perm: 0644, Mode: 2, Fault: "create", FaultPH: true}
+				} else {
+					first.Fault = "opendir"
+				}
+			}
+			block := []Op{{Kind: "clunk", Fid: k}, {Kind: "attach", Fid: k, Afid: NOFID}, {Kind: "walk", Fid: k, Newfid: k, Names: path}, first,
+				{Kind: "read", Fid: k, Count: 4}, {Kind: "open", Fid: k, Mode: 0}, {Kind: "read", Fid: k, Count: 4}}
+			c.Ops = append(c.Ops[:at], append(block, c.Ops[at:]...)...)
+		}
 		c.StopAt = len(c.Ops)
 		if rapid.IntRange(0, 3).Draw(t, "stopearly") == 0 {
 			c.StopAt = rapid.IntRange(0, len(c.Ops)).Draw(t, "stopat")
